@@ -121,10 +121,10 @@ static void vf_hook_pre(int kind, const volatile void* addr) {
   if (!vf_tracked(addr)) return;
   vf_point_ex(kind, 0);
 }
-static void vf_trace_step(int kind, const volatile void* addr, uintptr_t oldv, uintptr_t newv, int ok);
-static void vf_hook_post(int kind, const volatile void* addr, uintptr_t oldv, uintptr_t newv, int ok) {
+static void vf_trace_step(const char* fn, int kind, const volatile void* addr, uintptr_t oldv, uintptr_t newv, int ok);
+static void vf_hook_post_fn(const char* fn, int kind, const volatile void* addr, uintptr_t oldv, uintptr_t newv, int ok) {
   if (!vf_active || vf_self < 0 || vf_in_hook) return;
-  vf_trace_step(kind, addr, oldv, newv, ok);
+  vf_trace_step(fn, kind, addr, oldv, newv, ok);
 }
 static int vf_hook_spurious(const volatile void* addr) {
   if (!vf_active || vf_self < 0 || vf_in_hook || vf_spurious_left <= 0 || vf_spurious_rate <= 0) return 0;
